@@ -298,6 +298,9 @@ func (t *dexTracker) harvest(w *World) {
 		t.checkFills(w, s)
 	case "C04", "C06":
 		t.checkPools(w, s, deps, wds)
+		if t.prop == "C06" {
+			t.checkPendingRequests(w)
+		}
 	case "C07":
 		t.checkFlows(w, s, deps, wds, ords)
 	case "C19":
@@ -572,12 +575,93 @@ func poolKind(pl liqtypes.Pool) string {
 	return "basic"
 }
 
+// checkPendingRequests evaluates the module's own amm.Deposit / amm.Withdraw on the live inputs of every request that is
+// waiting for its batch (reserves and share supply as they stand now). A deposit that would take more than was offered
+// cannot be observed as an executed request - the escrow cannot pay it, the batch of the whole app is rolled back in every
+// block and the request stays pending - so the law is checked on the function's output for these reachable inputs.
+func (t *dexTracker) checkPendingRequests(w *World) {
+	ctx := w.Ctx()
+	lk := w.App.LiquidityKeeper
+	for _, app := range w.Dex.AppIDs {
+		fee := w.dexParams(app).WithdrawFeeRate
+		for _, req := range lk.GetAllDepositRequests(ctx, app) {
+			if req.Status != liqtypes.RequestStatusNotExecuted {
+				continue
+			}
+			pl, ok := lk.GetPool(ctx, app, req.PoolId)
+			if !ok || pl.Disabled {
+				continue
+			}
+			pair, ok := lk.GetPair(ctx, app, pl.PairId)
+			if !ok {
+				continue
+			}
+			rx, ry, ps := w.poolBalances(pl, pair)
+			if !ps.IsPositive() || (!rx.IsPositive() && !ry.IsPositive()) {
+				continue
+			}
+			ox, oy := req.DepositCoins.AmountOf(pair.QuoteCoinDenom), req.DepositCoins.AmountOf(pair.BaseCoinDenom)
+			var ax, ay, pc sdk.Int
+			if msg := catch(func() { ax, ay, pc = amm.Deposit(rx, ry, ps, ox, oy) }); msg != "" {
+				t.report("C06", "c06.deposit_panics", poolKind(pl), fmt.Sprintf("amm.Deposit(%s,%s,%s,%s,%s) on the live inputs of pending request %d: %s", rx, ry, ps, ox, oy, req.Id, msg))
+				continue
+			}
+			if !pc.IsPositive() {
+				continue
+			}
+			w.Stats.Probe("c06.pending_deposit_checked")
+			t.checkDepositLaws(w, fmt.Sprintf("amm.Deposit on the live inputs of pending deposit request %d of pool %d/%d at height %d", req.Id, app, pl.Id, w.Height()), pl, rx, ry, ps, ox, oy, ax, ay, pc)
+		}
+		for _, req := range lk.GetAllWithdrawRequests(ctx, app) {
+			if req.Status != liqtypes.RequestStatusNotExecuted {
+				continue
+			}
+			pl, ok := lk.GetPool(ctx, app, req.PoolId)
+			if !ok || pl.Disabled {
+				continue
+			}
+			pair, ok := lk.GetPair(ctx, app, pl.PairId)
+			if !ok {
+				continue
+			}
+			rx, ry, ps := w.poolBalances(pl, pair)
+			if !ps.IsPositive() || req.PoolCoin.Amount.GT(ps) {
+				continue
+			}
+			var x, y sdk.Int
+			if msg := catch(func() { x, y = amm.Withdraw(rx, ry, ps, req.PoolCoin.Amount, fee) }); msg != "" {
+				t.report("C06", "c06.withdraw_panics", poolKind(pl), fmt.Sprintf("amm.Withdraw(%s,%s,%s,%s,%s) on the live inputs of pending request %d: %s", rx, ry, ps, req.PoolCoin.Amount, fee, req.Id, msg))
+				continue
+			}
+			if x.IsZero() && y.IsZero() {
+				continue
+			}
+			w.Stats.Probe("c06.pending_withdraw_checked")
+			t.checkWithdrawLaws(w, fmt.Sprintf("amm.Withdraw on the live inputs of pending withdraw request %d of pool %d/%d at height %d", req.Id, app, pl.Id, w.Height()), pl, rx, ry, ps, req.PoolCoin.Amount, x, y, fee)
+		}
+	}
+}
+
+func catch(f func()) (msg string) {
+	defer func() {
+		if r := recover(); r != nil {
+			msg = fmt.Sprint(r)
+		}
+	}()
+	f()
+	return ""
+}
+
 func (t *dexTracker) checkDeposit(w *World, where string, pl liqtypes.Pool, rx, ry, ps, ox, oy, ax, ay, minted sdk.Int) {
 	w.Stats.Probe("c06.deposit_checked")
-	kind := poolKind(pl)
-	if kind == "ranged" {
+	if poolKind(pl) == "ranged" {
 		w.Stats.Probe("c06.deposit_checked_ranged")
 	}
+	t.checkDepositLaws(w, where, pl, rx, ry, ps, ox, oy, ax, ay, minted)
+}
+
+func (t *dexTracker) checkDepositLaws(w *World, where string, pl liqtypes.Pool, rx, ry, ps, ox, oy, ax, ay, minted sdk.Int) {
+	kind := poolKind(pl)
 	if ax.GT(ox) || ay.GT(oy) {
 		t.report("C06", "c06.deposit_takes_more_than_offered", kind, fmt.Sprintf("%s: offered (%s,%s), accepted (%s,%s)", where, ox, oy, ax, ay))
 	}
@@ -622,8 +706,7 @@ func (t *dexTracker) checkDeposit(w *World, where string, pl liqtypes.Pool, rx, 
 
 func (t *dexTracker) checkWithdraw(w *World, where string, pl liqtypes.Pool, rx, ry, ps, pc, ox, oy sdk.Int, fee sdk.Dec) {
 	w.Stats.Probe("c06.withdraw_checked")
-	kind := poolKind(pl)
-	if kind == "ranged" {
+	if poolKind(pl) == "ranged" {
 		w.Stats.Probe("c06.withdraw_checked_ranged")
 	}
 	if !fee.IsZero() {
@@ -631,6 +714,13 @@ func (t *dexTracker) checkWithdraw(w *World, where string, pl liqtypes.Pool, rx,
 	}
 	if pc.Equal(ps) {
 		w.Stats.Probe("c06.last_share_redeemed")
+	}
+	t.checkWithdrawLaws(w, where, pl, rx, ry, ps, pc, ox, oy, fee)
+}
+
+func (t *dexTracker) checkWithdrawLaws(w *World, where string, pl liqtypes.Pool, rx, ry, ps, pc, ox, oy sdk.Int, fee sdk.Dec) {
+	kind := poolKind(pl)
+	if pc.Equal(ps) {
 		if !ox.Equal(rx) || !oy.Equal(ry) {
 			t.report("C06", "c06.last_share_not_everything", kind, fmt.Sprintf("%s: redeemed the whole supply %s, reserves (%s,%s), returned (%s,%s)", where, ps, rx, ry, ox, oy))
 		}
